@@ -204,6 +204,7 @@ func c13(c *Ctx) {
 		c.Before(r.short+"/clear-before-unlock", r.fn, un, cas, 1, r.short+": the reference is cleared before the write lock is released", "a local writer that gets the write lock while the reference still names the lock races a forwarded commit")
 	}
 	c.OnlyGuards("expiry/unconditional-sweep", "litefs.(*Store).EnforceHaltLockExpiration", p.Calls("litefs.(*DB).EnforceHaltLockExpiration"), gs(G(`rangeok\(.*\)`, true), G(`\(.* < builtin\.len\(.*\)\)`, true)), 1, "the sweep visits the databases under no condition other than the iteration itself (in particular not 'only while primary')", "a lock granted before a demotion must still expire: its guards pin the write lock and block role-change recovery for ever")
+	c.OnlyGuards("expiry/monitor-every-tick", "litefs.(*Store).monitorHaltLock", p.Calls("litefs.(*Store).EnforceHaltLockExpiration"), gs(G(`\(\d+ == select#\d+\)`, true), G(`\(\d+ == select#\d+\)`, false)), 1, "the monitor runs the expiry sweep on every tick - under no condition other than which select case fired (in particular not 'only while primary')", "a lock granted before a demotion must still expire: its guards pin the write lock and block role-change recovery for ever")
 	c.OnlyIn("expiry/monitor-calls", p.Calls("litefs.(*Store).EnforceHaltLockExpiration"), []string{pat("litefs.(*Store).monitorHaltLock")}, 1, "Store.EnforceHaltLockExpiration is driven by monitorHaltLock", "")
 	c.Expect("expiry/monitor-ticker", strings.Join(c.CallArgs("litefs.(*Store).monitorHaltLock", p.PlainCalls("time.NewTicker"), 0), ";"), pat("p0.HaltLockMonitorInterval"), "the monitor ticks every HaltLockMonitorInterval", "")
 	{
